@@ -63,6 +63,16 @@ def deframeAux (L : Nat) : Nat → Bytes → List Item
 
 def deframe (L : Nat) (inp : Bytes) : List Item := deframeAux L inp.length inp
 
+/-- the bytes behind the last complete item (an incomplete message, possibly empty) -/
+def leftoverAux (L : Nat) : Nat → Bytes → Bytes
+  | 0, inp => inp
+  | fuel + 1, inp =>
+    match readItem L inp with
+    | none => inp
+    | some (_, rest) => leftoverAux L fuel rest
+
+def leftover (L : Nat) (inp : Bytes) : Bytes := leftoverAux L inp.length inp
+
 /-- client-side framing (used by specs and round-trip theorems) -/
 def frame (t : UInt8) (body : Bytes) : Bytes := t :: be32 (body.length + 4) ++ body
 
